@@ -608,6 +608,8 @@ fn frag(rng: &mut Rng, ctx: &mut Ctx) {
             Ok(Err(e)) => { c.impl_out = format!("err {}", e); if fg.is_some() { c.fail("C12", format!("read fails under fragmentation {}: {}", pname, e)); c.fail("C11", "read fails under fragmentation"); if skip { c.fail("C10", format!("skip-frames read fails over a stream with short reads ({}): {}", pname, e)); } } }
             Ok(Ok(g)) => { let mut s = dump::summary(&g); if hash { s = s.replace("hashed=none", &format!("hashed=(some {})", b.len())); } c.impl_out = s.clone();
                 if s != fl { c.fail("C12", format!("game read under fragmentation {} differs from the unfragmented read", pname)); }
+                // the history oracle (spec offsets, presence, rows per frame) on what was read through short reads, hashing on or off
+                if !skip { check_frames(&r, &g, &mut c); }
                 if skip { if let Some(f) = &fg { if start_json(&g.start) != start_json(&f.start) || end_json(&g.end) != end_json(&f.end) || g.metadata != f.metadata { c.fail("C10", format!("skip-frames start/end/metadata differ over a stream with short reads ({})", pname)); } } }
                 if hash { if g.hash.as_deref() != Some(xx.as_str()) { c.fail("C11", format!("hash under fragmentation {} (skip={}) is {:?}, XXH3-64 of the file is {}", pname, skip, g.hash, xx)); } } else if g.hash.is_some() { c.fail("C11", "hash reported though not requested"); } } }
         tags.push(format!("plan:{}", pname)); tags.push(format!("skip{}", skip as u8)); tags.push(format!("hash{}", hash as u8)); c.tags = tags;
